@@ -107,6 +107,29 @@ P05_KVExact(w, ev, w2, h, r, rp) ==
   /\ (Call(ev) /\ ev.fn = "SaveKeyValue" /\ IsOk(ev)) => (ev.caller = ev.rcpt /\ ~IsSC(ev.caller) /\ (Pred(rp) => (rp.ok /\ KVMap(w2) = KVMap(rp.w))))
   /\ (~Call(ev) \/ ev.fn # "SaveKeyValue") => KVMap(w2) = KVMap(w)
 Named(ev, k) == \E i \in 1..NArgs(ev) : IsPfx(Arg(ev, i).h, k)
+\* the token entries a call may touch: exactly the (token, nonce) keys its input names (layout per function); a number the model does
+\* not represent (>= 2^30 or wider than 8 bytes) falls back to "some argument is a prefix of the key"
+KeyOf(tokA, n) == IF n >= 0 THEN {tokA.h \o NBHex(n)} ELSE {}
+RECURSIVE MultiFoot(_, _, _, _)
+MultiFoot(ev, k, i, st) ==      \* st: index of the first token triple
+  IF i >= k \/ st + 3 * i + 2 > NArgs(ev) THEN {}
+  ELSE LET tokA == Arg(ev, st + 3 * i)
+           nA == Arg(ev, st + 3 * i + 1)
+           vA == Arg(ev, st + 3 * i + 2) IN
+       (IF HasE(vA) THEN KeyOf(tokA, EntryNonce(vA.e)) ELSE KeyOf(tokA, nA.n)) \cup MultiFoot(ev, k, i + 1, st)
+FootKeys(w, ev) ==
+  CASE ev.fn \in {"ESDTTransfer", "ESDTBurn", "ESDTLocalMint", "ESDTLocalBurn", "ESDTFreeze", "ESDTUnFreeze", "ESDTWipe"} /\ NArgs(ev) >= 1 -> {Arg(ev,1).h}
+    [] ev.fn = "ESDTNFTCreate" /\ NArgs(ev) >= 1 /\ ev.caller \in Accts(w) -> KeyOf(Arg(ev,1), CtrOf(w.acct[ev.caller], Arg(ev,1).h) + 1)
+    [] ev.fn \in {"ESDTNFTAddQuantity", "ESDTNFTBurn", "ESDTNFTAddURI", "ESDTNFTUpdateAttributes"} /\ NArgs(ev) >= 2 -> KeyOf(Arg(ev,1), Arg(ev,2).n)
+    [] ev.fn = "ESDTNFTTransfer" /\ NArgs(ev) >= 4 ->
+         IF ev.caller = ev.rcpt THEN KeyOf(Arg(ev,1), Arg(ev,2).n) ELSE (IF HasE(Arg(ev,4)) THEN KeyOf(Arg(ev,1), EntryNonce(Arg(ev,4).e)) ELSE {})
+    [] ev.fn = "MultiESDTNFTTransfer" /\ NArgs(ev) >= 2 ->
+         IF ev.caller = ev.rcpt THEN (IF Arg(ev,2).n > 0 THEN MultiFoot(ev, Arg(ev,2).n, 0, 3) ELSE {})
+         ELSE (IF Arg(ev,1).n > 0 THEN MultiFoot(ev, Arg(ev,1).n, 0, 2) ELSE {})
+    [] OTHER -> {}
+\* every short argument (a candidate count / nonce) is a number the model represents
+Representable05(ev) == \A i \in 1..NArgs(ev) : Arg(ev, i).n >= 0 \/ BLen(Arg(ev, i).h) > 12
+InFoot(w, ev, k) == k \in FootKeys(w, ev) \/ (~Representable05(ev) /\ Named(ev, k))
 NamedAccts(ev) == {ev.caller, ev.rcpt} \cup {Arg(ev, i).ad : i \in 1..NArgs(ev)}
 ChangedKeys(f, g) == {k \in (DOMAIN f) \cup (DOMAIN g) : ~(k \in DOMAIN f /\ k \in DOMAIN g /\ f[k] = g[k])}
 P05_Frame(w, ev, w2, h, r) ==
@@ -115,7 +138,7 @@ P05_Frame(w, ev, w2, h, r) ==
   /\ Call(ev) =>
        /\ \A a \in Accts(w) : w2.acct[a] # w.acct[a] => a \in NamedAccts(ev)
        /\ \A a \in Accts(w) :
-            /\ \A k \in ChangedKeys(w.acct[a].esdt, w2.acct[a].esdt) : Named(ev, k)
+            /\ \A k \in ChangedKeys(w.acct[a].esdt, w2.acct[a].esdt) : InFoot(w, ev, k)
             /\ \A k \in ChangedKeys(w.acct[a].roles, w2.acct[a].roles) \cup ChangedKeys(w.acct[a].ctr, w2.acct[a].ctr) :
                   \E i \in 1..NArgs(ev) : Arg(ev, i).h = k
             /\ w2.acct[a].bad = w.acct[a].bad
